@@ -343,7 +343,8 @@ OBLIGATIONS = [
        bounds={'quick': '8 header sets (1-3 spines incl. an unknown type); operator rows: 3 (1 spine), 2 (2 spines: kern+text, kern+kern; 3 spines kern+kern+harm), 1 otherwise; <= 4 live columns',
                'thorough': 'operator rows: 4 (1 spine), 3 (2 spines), 2 (3 spines)'}, describe=_desc_a),
     Ob(id='C02.e', fn=ob_e, title='long texts (40 / 150 / 400 lines) in which none, every third or every **kern cell is rejected by the parser, with invisible barlines: stages, nodes, parents, token listing',
-       budget_s={'quick': 150, 'thorough': 600}, native_body=True, witnesses=[{'n': 1, 'bad': 2, 'hid': 1}], min_confirmed=18,
+       budget_s={'quick': 170, 'thorough': 600}, native_body=True, witnesses=[{'n': 1, 'bad': 2, 'hid': 1}], min_confirmed=18,
+       shard_of=lambda n, bad, hid: 2 * bad + hid, shards={'quick': 6, 'thorough': 6},
        enumerated='length (3), share of rejected cells (3), invisible barlines (2)', bounds={'quick': '3 x 3 x 2 texts, up to 400 lines / 690 rejected cells', 'thorough': 'same'}),
     Ob(id='C02.b', fn=ob_b, title='the line reader takes quotes, commas, spaces, backslashes and non-ASCII literally',
        shard_of=lambda sel, col: sel, shards={'quick': 8, 'thorough': 16}, budget_s={'quick': 120, 'thorough': 900},
